@@ -44,6 +44,10 @@ type Assoc struct {
 	// temporary error and nothing is accepted
 	FailWrite func(k int) bool
 	nwrite    int
+	// OnWriteEnter, if set, is called when a write call enters the backend, before anything of the call is looked
+	// at (scheduler gate: it may block; k counts the entries)
+	OnWriteEnter func(k int)
+	nenter       int
 }
 
 type tempErr struct{}
@@ -107,6 +111,13 @@ func (a *Assoc) SCTPRead(b []byte) (int, *sctp.SndRcvInfo, error) {
 }
 
 func (a *Assoc) SCTPWrite(b []byte, info *sctp.SndRcvInfo) (int, error) {
+	a.mu.Lock()
+	a.nenter++
+	k, gate := a.nenter, a.OnWriteEnter
+	a.mu.Unlock()
+	if gate != nil {
+		gate(k)
+	}
 	a.mu.Lock()
 	defer a.mu.Unlock()
 	if a.closed {
